@@ -155,4 +155,25 @@ Section Tree.
   Proof.
     intros Hl Hd. apply in_flat_map. exists l. split; [exact Hl|]. right. apply in_flat_map. exists d. split; [exact Hd|left; reflexivity].
   Qed.
+  Lemma libs_objects_lib n y : In y (flat_map (lib_objects s0) (kids s0 RLibs n)) -> kind_of s0 y = Some KLibrary -> In y (kids s0 RLibs n).
+  Proof.
+    intros H Hk. apply in_flat_map in H as [l [Hl [<-|Hy]]]; [exact Hl|].
+    apply in_flat_map in Hy as [d [Hd Hy]]. destruct (def_objects_kinds d y (proj1 (HT _ _ _ Hd)) Hy) as [NL _]. contradiction.
+  Qed.
+
+  Lemma libs_objects_bundle n y (r : rel) (k : kind) : (r = RPorts /\ k = KPort) \/ (r = RCables /\ k = KCable) ->
+    In y (flat_map (lib_objects s0) (kids s0 RLibs n)) -> kind_of s0 y = Some k ->
+    exists l d, In l (kids s0 RLibs n) /\ In d (kids s0 RDefs l) /\ In y (kids s0 r d).
+  Proof.
+    intros Hrk H Hk. apply in_flat_map in H as [l [Hl [<-|Hy]]].
+    - rewrite (proj1 (HT _ _ _ Hl)) in Hk. destruct Hrk as [[_ ->]|[_ ->]]; discriminate.
+    - apply in_flat_map in Hy as [d [Hd Hy]]. exists l, d. split; [exact Hl|]. split; [exact Hd|].
+      apply def_objects_cases in Hy as [->|[[p [Hp [->|Hy]]]|[[p [Hp [->|Hy]]]|Hy]]].
+      + rewrite (proj1 (HT _ _ _ Hd)) in Hk. destruct Hrk as [[_ ->]|[_ ->]]; discriminate.
+      + destruct Hrk as [[-> ->]|[-> ->]]; [exact Hp|]. rewrite (proj1 (HT _ _ _ Hp)) in Hk. discriminate.
+      + rewrite (proj1 (HT _ _ _ Hy)) in Hk. destruct Hrk as [[_ ->]|[_ ->]]; discriminate.
+      + destruct Hrk as [[-> ->]|[-> ->]]; [|exact Hp]. rewrite (proj1 (HT _ _ _ Hp)) in Hk. discriminate.
+      + rewrite (proj1 (HT _ _ _ Hy)) in Hk. destruct Hrk as [[_ ->]|[_ ->]]; discriminate.
+      + rewrite (proj1 (HT _ _ _ Hy)) in Hk. destruct Hrk as [[_ ->]|[_ ->]]; discriminate.
+  Qed.
 End Tree.
